@@ -107,6 +107,7 @@ def run(ctx):
                 add("depth" if tag == "depth" else "order", "%s/toml-order" % rec["id"], cell, rec["d_toml_order"])
                 if tag == "battery":
                     add("orderlaw", "%s/order-law" % rec["id"], cell, rec["order_law"])
+                    add("invariant", "%s/map-history-content" % rec["id"], cell, rec["d_hist_content"])
         outp = ctx.path("build-%s.ev" % cell)
         ctx.harness(h, ["build-events", "--in", sp, "--out", outp])
         for rec in core.iter_ndjson(outp):
